@@ -27,7 +27,7 @@ ASSUMPTIONS = [
     "the worker function does not raise and exhausts its iterator; the input iterable does not raise (so the kill event stays clear)",
     "worker functions yield their results (generator style) or return None, as both call sites do",
 ]
-RULE = ("runs of the real map_async under sys.setswitchinterval(1e-6): 0-40 items (with duplicates), sized and unsized iterables, threads in "
+RULE = ("runs of the real map_async under sys.setswitchinterval(1e-6): 0-40 items (with duplicates), sized and unsized iterables, a few lazy generators stalling 0.3-0.6 s before the first item or between items, threads in "
         "{None, -3 … 9}, worker functions that yield / sleep / spin at random points (generator style) or consume everything and return None; the recorded "
         "put/get/finish trace is replayed through the Lean transition function; non-trivial = at least 2 workers each handled an item")
 
@@ -61,13 +61,14 @@ def run(ctx):
     cases, reqs = [], []
     t_end = time.time() + ctx.n(14, 240)
     nruns = ctx.n(1500, 30000)
+    n_lazy = ctx.n(4, 40)
     try:
         thread_pool.queue = shim
         sys.setswitchinterval(1e-6)
         for ci in range(nruns):
             if time.time() > t_end:
                 break
-            nitems = rng.choice([0, 1, 2, 3, 5, 8, 13, 21, 40])
+            nitems = rng.choice([0, 1, 2, 3, 5, 8, 13, 21, 40]) if ci >= n_lazy else rng.choice([3, 5, 8, 13])
             items = [rng.randrange(0, 30) for _ in range(nitems)]
             threads = rng.choice([None, -3, 0, 1, 2, 2, 3, 4, 4, 6, 9])
             sized = rng.random() < 0.6
@@ -108,7 +109,25 @@ def run(ctx):
                     rec.log.append(("finish", me, x))
                 return None
 
-            iterable = list(items) if sized else iter(list(items))
+            # a few lazy producers per run: generators that stall before the first item or between two items (a repo scan that
+            # has to regenerate metadata, a slow disk) while the workers sit idle on the queue
+            stalls = {}
+            if ci < n_lazy and nitems > 0:
+                sized = False
+                for _ in range(rng.choice([1, 1, 2])):
+                    stalls[rng.randrange(0, nitems)] = rng.uniform(0.3, 0.6)
+                if rng.random() < 0.5:
+                    stalls[0] = rng.uniform(0.3, 0.6)
+                if threads is not None and threads < 2:
+                    threads = rng.choice([2, 3, 4])
+
+            def lazy(seq, stalls):
+                for pos, x in enumerate(seq):
+                    if pos in stalls:
+                        time.sleep(stalls[pos])
+                    yield x
+
+            iterable = list(items) if sized else (lazy(list(items), stalls) if stalls else iter(list(items)))
             kw = {} if threads is None and rng.random() < 0.5 else {"threads": threads}
             try:
                 res = thread_pool.map_async(iterable, functor_gen if style == "gen" else functor_none, "tag", **kw)
@@ -129,7 +148,8 @@ def run(ctx):
                     events.append([kind, idx[who]])
             import multiprocessing
             want_threads = multiprocessing.cpu_count() if kw.get("threads") is None else kw["threads"]
-            case = {"items": items, "threads": kw.get("threads", "default"), "sized": sized, "style": style, "events": len(events)}
+            case = {"items": items, "threads": kw.get("threads", "default"), "sized": sized, "style": style, "events": len(events),
+                    "producer_stalls": {str(k): round(v, 2) for k, v in stalls.items()}}
             cases.append((case, items, style, sized, want_threads, len(idx), dict(handled_py), idx, results))
             reqs.append({"cmd": "c41.par", "len": len(items) if sized else None, "threads": want_threads})
             reqs.append(None)   # placeholder for the trace request, needs n from the model
@@ -151,6 +171,8 @@ def run(ctx):
         ctx.count("workers_used_%d" % min(busy_workers, 5))
         ctx.count("style_" + style)
         ctx.count("sized" if sized else "unsized")
+        if case["producer_stalls"]:
+            ctx.count("lazy_producer")
         ctx.traces += 1
         # the property on the real run
         got = sorted(x for v in handled_py.values() for x in v)
